@@ -1,32 +1,41 @@
 /-
   C13 — chunk wire/save conversions preserve blocks, biomes, height maps, entities.
-  Property theorems only (helper lemmas: GoMC.Lemmas.Chunk; model: GoMC.Model.Chunk).
+  Property theorems only (helper lemmas: GoMC.Lemmas.Chunk / ChunkWire / ChunkSave; models: GoMC.Model.Chunk,
+  GoMC.Model.ChunkWire, GoMC.Model.ChunkSave on top of the models of C05/C06 (fields), C11 (BitStorage),
+  C12 (palette container) and C01/C03 (NBT readers)).
 
-  STAGE 1 (this file, so far): the clauses that do not depend on the representation of the palette container:
-    * `C13_count…`   — after any history of SetBlock calls a section's block count equals the number of non-air
-                       blocks it holds, and the int16 counter never wraps;
-    * `C13_packXZ…`  — BlockEntity.PackXZ/UnpackXZ (regenerated from level/chunk.go into `Gen.*` on every run).
-  The container enters through the interface `Container` (abstraction to a list of ids + the array laws), which is
-  exactly the statement of `C12_set_refines`; stage 2 instantiates it with `Model/Palette.lean`.
+  * `C13_count…`          — after any history of SetBlock calls a section's block count equals the number of non-air
+                            blocks it holds, the int16 counter never wraps (over the array interface `Container`);
+                            `C13_setBlock_refines` instantiates the interface with the real palette container (C12).
+  * `C13_packXZ…`         — BlockEntity.PackXZ/UnpackXZ (regenerated from level/chunk.go into `Gen.*` on every run).
+  * `C13_wire_roundtrip`  — the network form: written and read into a chunk with the same number of sections, fresh
+                            or used: equal block states, biomes, counters, MOTION_BLOCKING / WORLD_SURFACE, block
+                            entities; exactly the bytes written are consumed.
+  * `C13_readFrom_total / _fragInv / _extStable` (+ Section, BlockEntity, lightData) — for C08 and C09.
+  * `C13_save_roundtrip`  — the save form: `ChunkFromSave (ChunkToSave c)` preserves block states, biomes, light,
+                            status and each of the six height maps under its own name, relative to `Bij` at the
+                            palette entries (`C13_save_container`: every container representation;
+                            `C13_save_roundtrip_sections`: the chunk-level index arithmetic and slot filling).
 
   `C13_registry_bijection` is NOT a Lean theorem (DESIGN §8/§9): it is established by exhaustive enumeration on the
-  real registry in the harness on every run (`registry.bijection n=<count> => ok`) and enters the save round-trip
-  theorem of stage 2 as hypothesis `Bij`.
--/
-/- OPEN (stage 2, needs Model/Palette.lean and theorems C12_set_refines, C12_wire_roundtrip):
-     C13_wire_roundtrip — a chunk written in network form and read into a chunk with the same number of sections
-       (however used before) has equal abs of states and biomes and equal counters in every section, equal
-       MOTION_BLOCKING / WORLD_SURFACE, equal block entities, and the reader consumes exactly the bytes written.
-     C13_save_roundtrip — ChunkFromSave (ChunkToSave c) preserves every block state, biome, light array, status and
-       each of the six height maps under its own name, under `Bij` and within the width range of C12's WithData theorem. -/
-/-
-  Hypotheses a reader should know: `K.len ≤ 32767` (the real length is 4096) is what keeps the int16 counter from
-  wrapping; indices are in range and values are `K.valid` (SetBlock outside that domain panics in Go and is outside
-  the property); `isAir` is an arbitrary predicate on ids (the real one is `block.IsAir`, total on registry ids).
+  real registry in the harness on every run (`registry.bijection n=<count> => ok`) and enters the save round trip
+  as the hypothesis `BijAt` (`Bij` at the ids that occur).
+
+  Hypotheses a reader should know: `K.len ≤ 32767` (the real length is 4096) keeps the int16 counter from wrapping;
+  indices in range and ids in the registry range (SetBlock outside that domain panics in Go and is outside the
+  property); `isAir` is an arbitrary predicate on ids (the real one is `block.IsAir`, total on registry ids);
+  registry widths `gbS ≥ 9`, `gbB ≥ 4`, both ≤ 31 (`GbOK`; the real values are 15 and 6); block entities carry no
+  data or the payload of a well-formed NBT value with strings shorter than 2^15; every length fits a VarInt
+  (< 2^31); the source chunk's two network height maps are height maps of its own height (`ChunkDom.mb/ws`);
+  the destination has the same number of sections and containers of the right configuration and length — nothing
+  else (`ChunkDst`).  The height-map NBT codec is modelled concretely (`hmEnc`/`hmDecF`), not taken as a parameter.
 -/
 import GoMC.Model.Chunk
 import GoMC.Lemmas.Chunk
 import GoMC.Gen.Level
+import GoMC.Lemmas.ChunkWire
+import GoMC.Lemmas.ChunkSave
+import GoMC.Props.C12
 namespace GoMC.Props.C13
 open GoMC GoMC.Model.Chunk GoMC.Lemmas.Chunk
 
@@ -224,5 +233,286 @@ theorem C13_unpackXZ_pack (xz : BitVec 8) :
     Gen.BlockEntity_PackXZ_value (Gen.BlockEntity_UnpackXZ xz).1 (Gen.BlockEntity_UnpackXZ xz).2 = xz ∧
     (Gen.BlockEntity_UnpackXZ xz).1.toNat ≤ 15 ∧ (Gen.BlockEntity_UnpackXZ xz).2.toNat ≤ 15 :=
   unpack_table xz.toFin
+
+/-! ## STAGE 2 — the byte-level models (Model/ChunkWire.lean) -/
+
+section stage2
+open GoMC.Model GoMC.Lemmas.ChunkWire
+open GoMC.Lemmas.Palette (Inv abs GbOK InReg getV)
+
+/-! ### the real container meets the array interface (C12), so the counter theorems apply to the real section -/
+
+/-- `PaletteContainer` of `n` entries as an instance of the interface: `abs` is C12's abstraction, the laws are
+`C12_get` and `C12_set_refines` -/
+def palK (cfg : PalCfg) (gb n : Nat) (hgb : GbOK cfg gb) : Container PCont where
+  len := n
+  valid := fun v => v < 2 ^ gb
+  Inv := Inv cfg gb n
+  abs := fun c => (abs n c).map Int.toNat
+  get := fun c i => (getV c i).toNat
+  set := fun c i v => (c.set (i : Int) (v : Int)).2
+  abs_length := fun c _ => by simp
+  get_abs := fun c i _ hi => by simp [Lemmas.Palette.abs, hi]
+  set_inv := fun c i v hinv hi hv => by
+    have hv' : InReg gb (v : Int) := ⟨by omega, by exact_mod_cast hv⟩
+    obtain ⟨c', h1, h2, _⟩ := C12.C12_set_refines hgb hinv hi hv' 0
+    rw [(C12.C12_set_fuel hgb hinv hi hv' 0).2, h1]
+    exact h2
+  set_abs := fun c i v hinv hi hv => by
+    have hv' : InReg gb (v : Int) := ⟨by omega, by exact_mod_cast hv⟩
+    obtain ⟨c', h1, _, h3⟩ := C12.C12_set_refines hgb hinv hi hv' 0
+    rw [(C12.C12_set_fuel hgb hinv hi hv' 0).2, h1]
+    simp only [h3, List.map_set, Int.toNat_natCast]
+
+/-- `(*Section).SetBlock` on the real container IS the interface-level `SetBlock` of stage 1: it succeeds, and
+counter and container afterwards are those of `Section.setBlock (palK …)` — so `C13_count`, `C13_count_no_wrap`
+hold for every history of real `SetBlock` calls (indices below 4096, ids in the registry range). -/
+theorem C13_setBlock_refines {gb : Nat} (hgb : GbOK (blocksCfg gb) gb) (isAir : Int → Bool) (s : WSec)
+    (hinv : Inv (blocksCfg gb) gb 4096 s.states) (i v : Nat) (hi : i < 4096) (hv : v < 2 ^ gb) :
+    let K := palK (blocksCfg gb) gb 4096 hgb
+    let t := Section.setBlock K (fun n => isAir (n : Int)) ⟨s.count, s.states⟩ i v
+    s.setBlock isAir (i : Int) (v : Int) = (.ok (), { s with count := t.blockCount, states := t.states }) := by
+  intro K t
+  have hv' : InReg gb (v : Int) := ⟨by omega, by exact_mod_cast hv⟩
+  obtain ⟨x, hx, _, hxr⟩ := C12.C12_get hgb hinv hi
+  obtain ⟨c', h1, _, _⟩ := C12.C12_set_refines hgb hinv hi hv' 0
+  have hset : s.states.set (i : Int) (v : Int) = (.ok (), c') := by
+    rw [(C12.C12_set_fuel hgb hinv hi hv' 0).2, h1]
+  have hget : (getV s.states i : Int) = x := by simp [getV, hx]
+  have hx0 : ((x.toNat : Nat) : Int) = x := Int.toNat_of_nonneg hxr.1
+  unfold WSec.setBlock
+  simp only [hx, hset]
+  show _ = (Res.ok (), { s with count := (Section.setBlock K (fun n => isAir (n : Int)) ⟨s.count, s.states⟩ i v).blockCount,
+                                states := (Section.setBlock K (fun n => isAir (n : Int)) ⟨s.count, s.states⟩ i v).states })
+  simp only [Section.setBlock, K, palK, hget, hx0, hset]
+
+/-! ### C13_wire_roundtrip -/
+
+/-- **C13_wire_roundtrip.**  Let `c` be a chunk whose containers are well-formed (`ChunkDom`: C12's invariant for the
+block-state and biome container of every section, height maps of the chunk's height, block entities carrying
+well-formed NBT or none) and `d` ANY chunk with the same number of sections whose containers have the right kind
+and length (`ChunkDst` — built by `EmptyChunk`, used, or read into before).  On every source that delivers
+`c.WriteTo`'s bytes followed by `rest` — however fragmented — `d.ReadFrom` succeeds, returns the number of bytes
+written, leaves exactly `rest`, and afterwards every section of `d` has the counter, the block states and the
+biomes of the corresponding section of `c` (as abstract arrays, in containers that are well-formed again),
+MOTION_BLOCKING and WORLD_SURFACE are those of `c`, and the block entities are those of `c`. -/
+theorem C13_wire_roundtrip {gbS gbB : Nat} (hS : GbOK (blocksCfg gbS) gbS) (hB : GbOK (biomesCfg gbB) gbB)
+    (c d : Chunk) (hc : ChunkDom gbS gbB c) (hd : ChunkDst gbS gbB c.secs.length d) (rest : Bytes) (s : Stream)
+    (hs : s.flat = (c.writeTo gbS gbB).1 ++ rest) :
+    ∃ d' s', Chunk.readFrom gbS gbB d s = (Res.ok (d', (c.writeTo gbS gbB).1.length), s') ∧
+      s'.flat = rest ∧ s'.failing = s.failing ∧
+      d'.secs.length = c.secs.length ∧
+      (∀ (i : Nat) (h1 : i < d'.secs.length) (h2 : i < c.secs.length),
+        d'.secs[i].count = c.secs[i].count ∧
+        Inv (blocksCfg gbS) gbS 4096 d'.secs[i].states ∧ abs 4096 d'.secs[i].states = abs 4096 c.secs[i].states ∧
+        Inv (biomesCfg gbB) gbB 64 d'.secs[i].biomes ∧ abs 64 d'.secs[i].biomes = abs 64 c.secs[i].biomes) ∧
+      d'.hm.motionBlocking = c.hm.motionBlocking ∧ d'.hm.worldSurface = c.hm.worldSurface ∧
+      d'.ents.elems = c.ents.elems := by
+  obtain ⟨d', s', h1, h2, h3, h4, h5, h6, h7, h8⟩ := wire_roundtrip hS hB c d hc hd rest s hs
+  refine ⟨d', s', h1, h2, h3, h4, ?_, h6, h7, h8⟩
+  intro i i1 i2
+  have := listRel_get h5 i (by simpa using i1) (by simpa using i2)
+  simp only [List.getElem_map] at this
+  obtain ⟨a, ⟨b1, b2⟩, ⟨c1, c2⟩⟩ := this
+  exact ⟨a, b1, b2, c1, c2⟩
+
+/-! ### C13_readFrom_total / fragInv / extStable (for C08 and C09) -/
+
+/-- `Chunk.ReadFrom` never panics: on every byte stream, into every destination whose containers have a sane
+registry width (0..64 bits) — with any NBT fuel, in particular with the fuel of the entry point. -/
+theorem C13_readFrom_total (gbS gbB : Int) (d : Chunk) (hd : ChunkSane d) (s : Stream) :
+    (Chunk.readFrom gbS gbB d s).1 ≠ Res.panic :=
+  (good_chunkReadF gbS gbB (NBT.fuelFor s) d hd).noPanic s
+
+theorem C13_readFrom_total_fuel (gbS gbB : Int) (fuel : Nat) (d : Chunk) (hd : ChunkSane d) (s : Stream) :
+    (Chunk.readFromF gbS gbB fuel d s).1 ≠ Res.panic :=
+  (good_chunkReadF gbS gbB fuel d hd).noPanic s
+
+/-- `Chunk.ReadFrom` cannot observe how its source fragments the bytes -/
+theorem C13_readFrom_fragInv (gbS gbB : Int) (d : Chunk) (hd : ChunkSane d) : Rd.FragInv (Chunk.readFrom gbS gbB d) :=
+  fragInv_fuelFor (fun fuel => Chunk.readFromF gbS gbB fuel d) (fun fuel => (good_chunkReadF gbS gbB fuel d hd).fragInv)
+
+/-- a successful `Chunk.ReadFrom` (at fixed NBT fuel) does not depend on what follows the bytes it consumed -/
+theorem C13_readFrom_extStable (gbS gbB : Int) (fuel : Nat) (d : Chunk) (hd : ChunkSane d) :
+    Rd.ExtStable (Chunk.readFromF gbS gbB fuel d) := (good_chunkReadF gbS gbB fuel d hd).extStable
+
+/-- the same three facts for `Section.ReadFrom`, `BlockEntity.ReadFrom` and `lightData.ReadFrom` -/
+theorem C13_section_readFrom_good (gbS gbB : Int) (sec : WSec) (h : SecSane sec.core) :
+    (∀ s, (Section.readFrom gbS gbB sec s).1 ≠ Res.panic) ∧ Rd.FragInv (Section.readFrom gbS gbB sec) ∧
+    Rd.ExtStable (Section.readFrom gbS gbB sec) :=
+  let g := good_secRead gbS gbB sec h
+  ⟨g.noPanic, g.fragInv, g.extStable⟩
+
+theorem C13_entity_readFrom_good (e : EntRep) :
+    (∀ s, (BlockEntity.readFrom e s).1 ≠ Res.panic) ∧ Rd.FragInv (BlockEntity.readFrom e) ∧
+    (∀ fuel, Rd.ExtStable ((entC fuel).dec e)) :=
+  ⟨fun s => (good_ent (NBT.fuelFor s) e).noPanic s,
+   fragInv_fuelFor (fun fuel => (entC fuel).dec e) (fun fuel => (good_ent fuel e).fragInv),
+   fun fuel => (good_ent fuel e).extStable⟩
+
+theorem C13_light_readFrom_good (l : LightData) :
+    (∀ s, (lightC.dec l s).1 ≠ Res.panic) ∧ Rd.FragInv (lightC.dec l) ∧ Rd.ExtStable (lightC.dec l) :=
+  let g := good_light l
+  ⟨g.noPanic, g.fragInv, g.extStable⟩
+
+end stage2
+
+/-! ### non-vacuity: `EmptyChunk(1)` (real registry widths 15 and 6) is both a legal source and a legal destination,
+so the round-trip theorem applies to it; it stays so under `SetBlock` by `C13_setBlock_refines` + `C12_set_refines` -/
+
+section nonvacuity
+open GoMC.Model GoMC.Lemmas.ChunkWire
+open GoMC.Lemmas.Palette (Inv GbOK InReg)
+
+def sec0 : WSec :=
+  { count := 0#16, states := Model.Container.new (blocksCfg 15) 4096 0, biomes := Model.Container.new (biomesCfg 6) 64 0 }
+
+/-- the height map of a one-section chunk: 5 bits per height, 12 heights per long, 22 longs -/
+def hm1 : BitStorage := { data := List.replicate 22 0#64, mask := maskOf 5, bits := 5, length := 256, vpl := 12 }
+
+def empty1 : Chunk :=
+  { secs := [sec0], hm := ⟨hm1, hm1, hm1, hm1, hm1, hm1⟩, ents := Slice.nil, status := [0x65, 0x6d, 0x70, 0x74, 0x79] }
+
+example : newBitStorage (hmBitsOf 1) 256 none = .ok hm1 := by decide +kernel
+
+theorem C13_gbok_blocks : GbOK (blocksCfg (15 : Nat)) 15 := ⟨rfl, by decide, by show 9 ≤ 15; decide⟩
+theorem C13_gbok_biomes : GbOK (biomesCfg (6 : Nat)) 6 := ⟨rfl, by decide, by show 4 ≤ 6; decide⟩
+
+theorem C13_empty_is_destination : ChunkDst 15 6 1 empty1 := by
+  refine ⟨rfl, ?_⟩
+  intro s hs
+  have : s = sec0 := by simpa [empty1] using hs
+  subst this
+  exact ⟨⟨rfl, rfl⟩, ⟨rfl, rfl⟩⟩
+
+theorem C13_empty_is_source : ChunkDom 15 6 empty1 := by
+  refine ⟨?_, by decide +kernel, by decide +kernel, by decide +kernel, by decide +kernel, by decide +kernel, ?_,
+    by decide +kernel, ?_⟩
+  · intro s hs
+    have : s = sec0 := by simpa [empty1] using hs
+    subst this
+    exact ⟨(C12.C12_new (blocksCfg (15 : Nat)) 15 4096 0 ⟨by decide, by decide⟩).1,
+           (C12.C12_new (biomesCfg (6 : Nat)) 6 64 0 ⟨by decide, by decide⟩).1⟩
+  · intro e he
+    simp [empty1, Slice.nil] at he
+  · refine ⟨by decide +kernel, by decide +kernel, by decide +kernel, by decide +kernel, ?_, ?_⟩ <;>
+      (intro a ha; simp [empty1, sec0, lightOf, freshLight, Slice.nil] at ha)
+
+/-- the round-trip theorem applied: an empty chunk written and read into an empty chunk -/
+example (rest : Bytes) (s : Stream) (hs : s.flat = (empty1.writeTo 15 6).1 ++ rest) :
+    ∃ d' s', Chunk.readFrom 15 6 empty1 s = (Res.ok (d', (empty1.writeTo 15 6).1.length), s') ∧ s'.flat = rest :=
+  let ⟨d', s', h1, h2, _⟩ := C13_wire_roundtrip (gbS := 15) (gbB := 6) C13_gbok_blocks C13_gbok_biomes
+    empty1 empty1 C13_empty_is_source C13_empty_is_destination rest s hs
+  ⟨d', s', h1, h2⟩
+
+end nonvacuity
+
+/-! ## the save form -/
+
+section save
+open GoMC.Model GoMC.Lemmas.ChunkWire GoMC.Lemmas.ChunkSave
+open GoMC.Lemmas.Palette (Inv abs GbOK InReg)
+
+/-! Nothing is left OPEN for the save form.  Modelling boundaries (see Model/ChunkSave.lean): the registries are
+parameters (`Registry`); `save.Chunk.BlockEntities` is not written by `ChunkToSave` and assumed empty on load; a
+save form that leaves a section slot unfilled is reported as `panic` (Go returns a chunk with nil containers). -/
+
+/-- **C13_save_roundtrip_sections.**  The chunk-level part of the save round trip: if every section survives
+`write…Palette`/`read…Palette` (`SecSaveRT`: C12's `…WithData` constructors composed with `saveIndices`), then
+`ChunkToSave` succeeds, stores section `k` under `Y = int8(k + YPos)`, each of the six height maps under its own
+name and the status; `ChunkFromSave` of that save form succeeds, puts every section back into its slot (the
+index `int32(Y) − YPos` is `k` again), with the same block states and biomes (in well-formed containers), the
+counter recomputed exactly, the same light arrays, the same six height maps and the same status. -/
+theorem C13_save_roundtrip_sections {DS DB} (R : Registry DS DB) (gbS gbB : Nat) (ypos : BitVec 32) (c : Chunk)
+    (hn : c.secs.length < 2 ^ 31)
+    (hy : ∀ k : Nat, k < c.secs.length → -128 ≤ (k : Int) + ypos.toInt ∧ (k : Int) + ypos.toInt ≤ 127)
+    (hsecs : ∀ s ∈ c.secs, SecSaveRT R gbS gbB s) (hhm : HmOK c.secs.length c.hm) :
+    ∃ sv c', chunkToSave R gbS gbB ypos c = .ok sv ∧ chunkFromSave R gbS gbB sv = .ok c' ∧
+      sv.secs.length = c.secs.length ∧
+      (∀ (k : Nat) (h : k < sv.secs.length), sv.secs[k].y = BitVec.setWidth 8 (BitVec.ofNat 32 k + ypos)) ∧
+      sv.hm = ⟨some c.hm.worldSurfaceWG.data, some c.hm.worldSurface.data, some c.hm.oceanFloorWG.data,
+               some c.hm.oceanFloor.data, some c.hm.motionBlocking.data, some c.hm.motionBlockingNoLeaves.data⟩ ∧
+      sv.status = c.status ∧
+      c'.secs.length = c.secs.length ∧
+      (∀ (k : Nat) (h1 : k < c'.secs.length) (h2 : k < c.secs.length), SecSame R.isAir gbS gbB c'.secs[k] c.secs[k]) ∧
+      c'.hm = c.hm ∧ c'.status = c.status :=
+  save_roundtrip R gbS gbB ypos c hn hy hsecs hhm
+
+/-- a section survives the save form as soon as its two containers do -/
+theorem C13_save_section_of_containers {DS DB} (R : Registry DS DB) {gbS gbB : Nat} (hS : GbOK (blocksCfg gbS) gbS)
+    (s : WSec) (h1 : ContSaveRT R.descS R.stateOf 4 (blocksCfg gbS) gbS 4096 s.states)
+    (h2 : ContSaveRT R.descB R.biomeOf 0 (biomesCfg gbB) gbB 64 s.biomes) : SecSaveRT R gbS gbB s :=
+  secSaveRT_of R hS s h1 h2
+
+/-- a single-valued container survives the save form, relative to `Bij` at its value -/
+theorem C13_save_container_single {D} (desc : Int → Res D) (ofDesc : D → Option Int) (minBits : Int) (cfg : PalCfg)
+    (gb n : Nat) (v : Int) (d : BitStorage) (hinv : Inv cfg gb n ⟨0, cfg, .single v, d⟩) (hb : BijAt desc ofDesc v) :
+    ContSaveRT desc ofDesc minBits cfg gb n ⟨0, cfg, .single v, d⟩ :=
+  contSaveRT_single desc ofDesc minBits cfg gb n v d hinv hb
+
+/-- every well-formed container survives `write…Palette` / `read…Palette`, relative to `Bij` at the entries of its
+palette: single value (no data), indirect (the indices re-packed at the width of the palette size, C11's packing
+invariant through the `saveIndices` loop, then `C12_with_data`), direct (empty palette, raw ids — whatever padding
+bits the longs carry) -/
+theorem C13_save_container {D} (desc : Int → Res D) (ofDesc : D → Option Int) (cfg : PalCfg) (gb n : Nat)
+    (hgb : GbOK cfg gb) (hn : 0 < n) (c : PCont) (hinv : Inv cfg gb n c)
+    (hb : ∀ v ∈ c.pal.export, BijAt desc ofDesc v) : ContSaveRT desc ofDesc cfg.minBits cfg gb n c :=
+  contSaveRT_all desc ofDesc cfg gb n hgb hn c hinv hb
+
+/-- **C13_save_roundtrip.**  Let `c` be a chunk whose sections hold well-formed containers, `R` a registry for which
+the description mapping leads back to every id that occurs in a palette (`Bij`: block-state ↔ (name, properties)
+— established on the whole real registry by the exhaustive test — and biome id ↔ name), `YPos + section index`
+inside int8, and the six height maps those of a chunk of this height.  Then `ChunkToSave` succeeds, stores
+section `k` under `Y = int8(k + YPos)`, each of the six height maps under its own name and the status; and
+`ChunkFromSave` of that save form succeeds and yields a chunk with, in every section, the same block states and
+biomes (in well-formed containers), `BlockCount` = the number of non-air blocks, the same light arrays; the same
+six height maps; the same status. -/
+theorem C13_save_roundtrip {DS DB} (R : Registry DS DB) {gbS gbB : Nat} (hS : GbOK (blocksCfg gbS) gbS)
+    (hB : GbOK (biomesCfg gbB) gbB) (ypos : BitVec 32) (c : Chunk)
+    (hn : c.secs.length < 2 ^ 31)
+    (hy : ∀ k : Nat, k < c.secs.length → -128 ≤ (k : Int) + ypos.toInt ∧ (k : Int) + ypos.toInt ≤ 127)
+    (hinv : ∀ s ∈ c.secs, SecDom gbS gbB s.core)
+    (hbijS : ∀ s ∈ c.secs, ∀ v ∈ s.states.pal.export, BijAt R.descS R.stateOf v)
+    (hbijB : ∀ s ∈ c.secs, ∀ v ∈ s.biomes.pal.export, BijAt R.descB R.biomeOf v)
+    (hhm : HmOK c.secs.length c.hm) :
+    ∃ sv c', chunkToSave R gbS gbB ypos c = .ok sv ∧ chunkFromSave R gbS gbB sv = .ok c' ∧
+      sv.secs.length = c.secs.length ∧
+      (∀ (k : Nat) (h : k < sv.secs.length), sv.secs[k].y = BitVec.setWidth 8 (BitVec.ofNat 32 k + ypos)) ∧
+      sv.hm = ⟨some c.hm.worldSurfaceWG.data, some c.hm.worldSurface.data, some c.hm.oceanFloorWG.data,
+               some c.hm.oceanFloor.data, some c.hm.motionBlocking.data, some c.hm.motionBlockingNoLeaves.data⟩ ∧
+      sv.status = c.status ∧
+      c'.secs.length = c.secs.length ∧
+      (∀ (k : Nat) (h1 : k < c'.secs.length) (h2 : k < c.secs.length), SecSame R.isAir gbS gbB c'.secs[k] c.secs[k]) ∧
+      c'.hm = c.hm ∧ c'.status = c.status := by
+  apply C13_save_roundtrip_sections R gbS gbB ypos c hn hy ?_ hhm
+  intro s hs
+  exact secSaveRT_of R hS s
+    (contSaveRT_all R.descS R.stateOf (blocksCfg gbS) gbS 4096 hS (by decide) s.states (hinv s hs).1 (hbijS s hs))
+    (contSaveRT_all R.descB R.biomeOf (biomesCfg gbB) gbB 64 hB (by decide) s.biomes (hinv s hs).2 (hbijB s hs))
+
+/-- the counter `ChunkFromSave` stores is exact for every well-formed container (the real `countNoneAirBlocks`) -/
+theorem C13_count_on_load {cfg : PalCfg} {gb : Nat} {c : PCont} (hgb : GbOK cfg gb) (hinv : Inv cfg gb 4096 c)
+    (isAir : Int → Bool) :
+    countNonAirP isAir c 4096 = .ok (BitVec.ofNat 16 (((abs 4096 c).filter fun v => !isAir v).length)) := by
+  have h := countNonAirP_ok hgb hinv isAir 4096 (by omega) (by omega)
+  rwa [List.take_of_length_le (by simp)] at h
+
+/-- non-vacuity: `EmptyChunk(1)` meets the hypotheses of the partial theorem for the identity registry -/
+example : ∃ sv c', chunkToSave (DS := Int) (DB := Int) ⟨fun v => .ok v, some, fun v => .ok v, some, fun v => v == 0⟩ 15 6
+      (BitVec.ofInt 32 (-4)) empty1 = .ok sv ∧
+    chunkFromSave ⟨fun v => .ok v, some, fun v => .ok v, some, fun v => v == 0⟩ 15 6 sv = .ok c' ∧ c'.hm = empty1.hm := by
+  have hsec : SecSaveRT (DS := Int) (DB := Int) ⟨fun v => .ok v, some, fun v => .ok v, some, fun v => v == 0⟩ 15 6 sec0 := by
+    apply secSaveRT_of _ C13_gbok_blocks
+    · exact contSaveRT_single _ _ _ _ _ _ 0 _ (C12.C12_new (blocksCfg (15 : Nat)) 15 4096 0 ⟨by decide, by decide⟩).1 ⟨0, rfl, rfl⟩
+    · exact contSaveRT_single _ _ _ _ _ _ 0 _ (C12.C12_new (biomesCfg (6 : Nat)) 6 64 0 ⟨by decide, by decide⟩).1 ⟨0, rfl, rfl⟩
+  obtain ⟨sv, c', h1, h2, _, _, _, _, _, _, h9, _⟩ := C13_save_roundtrip_sections _ 15 6 (BitVec.ofInt 32 (-4)) empty1
+    (by decide) (by intro k hk; have : k = 0 := by simpa [empty1] using hk
+                    subst this; decide)
+    (by intro s hs; have : s = sec0 := by simpa [empty1] using hs
+        subst this; exact hsec)
+    ⟨by decide +kernel, by decide +kernel, by decide +kernel, by decide +kernel, by decide +kernel, by decide +kernel⟩
+  exact ⟨sv, c', h1, h2, h9⟩
+
+end save
 
 end GoMC.Props.C13
